@@ -234,6 +234,32 @@ def rule_stop_protocol(ctx, crate, g, rule="R-STOP-PROTOCOL"):
         ok = bool(stops) and bool(joins) and all(any(dr.dominates(s.bb, j.bb) and s.bb != j.bb for s in stops) for j in joins)
         ctx.check(ok, rule, "stop-before-join", dr.name, K.fn_loc(dr), "Ticker::drop signals stop before joining the thread",
                   "Ticker::drop joins the thread without (first) signalling stop: the join waits for the whole interval or forever", cfg)
+    # (5) "stops promptly ... when steady tick is disabled or replaced": the public entry points reach the replace step whatever
+    #     state the bar is in. enable_steady_tick may return early only for the request itself (a zero interval); a return that
+    #     depends on the bar (finished, hidden, ..) leaves an installed ticker - possibly a sleeping thread with an hour-long
+    #     interval - in charge of the spinner (seed C08l)
+    for fn in ("enable_steady_tick", "disable_steady_tick"):
+        eb = K.find_one(ctx, crate, rule, r"progress_bar::ProgressBar::" + fn)
+        if not eb:
+            continue
+        repl = {c.bb for c in eb.calls(r"progress_bar::ProgressBar::stop_and_replace_ticker")} | \
+            {i for i, j, st in eb.assigns() if "*" in st["lhs"]["p"] and "progress_bar::Ticker" in st["lhs"].get("ty", "") and "Option" in st["lhs"].get("ty", "")}
+        bad = []
+        for rb in eb.return_blocks():
+            if not repl or rb in eb.reach([0], avoid=repl):
+                # a path around the replace step: every test that opens it reads only the request (the interval parameter)
+                for sb, t in eb.switches():
+                    for x in eb.succ(sb):
+                        if rb in eb.reach([x], avoid=repl) and any(y != x and (eb.reach([y]) & repl) for y in eb.succ(sb)):
+                            sl = eb.slice_switch(sb)
+                            if sl.fields() or [k for k in sl.calls if k.callee.get("local")] or 1 in sl.params():
+                                bad.append("%s:%d" % (eb.file, t.get("line", 0)))
+                if not repl:
+                    bad.append(K.fn_loc(eb))
+        ctx.check(not bad, rule, "always-replaces:%s" % fn, eb.name, bad[0] if bad else K.fn_loc(eb),
+                  "%s reaches the stop-and-replace step on every path except a request that asks for nothing (zero interval)" % fn,
+                  "%s can return without stopping/replacing an installed ticker depending on the bar's state: the old steady-tick thread (however long its "
+                  "interval) stays in charge, manual ticks stay suppressed" % fn, cfg)
     # (4) stop_and_replace_ticker: old ticker taken and stopped before the replacement is stored
     #     (located by effect: every function that stores into the ticker slot — one helper today, its callers if it is inlined)
     srs = [b for b in K.lib_bodies(crate) if b.kind != "Closure" and
@@ -335,6 +361,57 @@ def rule_stop_protocol(ctx, crate, g, rule="R-STOP-PROTOCOL"):
                           "after being notified to stop the thread keeps ticking", cfg)
 
 
+def _flag_values(crate, b, op, at, depth=0):
+    """Symbolic values a bool operand can take: 'R' (result of a call that asks whether the ticker's thread runs), 'N' / 'S'
+    (Option::is_none / is_some of the slot), 'T' / 'F', their negations ('!R', ..), '?' for anything else."""
+    if not isinstance(op, dict) or depth > 8:
+        return {"?"}
+    if op.get("k") == "const":
+        v = op.get("v")
+        return {"T" if v is True else "F" if v is False else "?"}
+    l = operand_local(op)
+    if l is None or op["place"]["p"]:
+        return {"?"}
+    out = set()
+    ds = [d for d in b.defs().get(l, ()) if d["kind"] in ("assign", "call") and b.def_reaches(d, at)]
+    if not ds:
+        return {"?"}
+    neg = {"R": "!R", "!R": "R", "N": "!N", "!N": "N", "S": "!S", "!S": "S", "T": "F", "F": "T", "?": "?"}
+    for d in ds:
+        if d["kind"] == "call":
+            k = d["call"]
+            if k.matches(r"std::option::Option::<T>::(map_or|is_some_and|is_none_or)") and len(k.args) >= 2:
+                # `slot.as_ref().map_or(false, Ticker::is_running)`: the default for an empty slot, the function's answer otherwise
+                fa = k.args[-1]
+                fb = crate.bodies.get(fa.get("fn")) if isinstance(fa, dict) and fa.get("fn") else None
+                if fb is None:
+                    for dd in b.defs().get(operand_local(fa), ()) if operand_local(fa) is not None else ():
+                        if dd["kind"] == "assign" and dd["rv"]["k"] == "agg" and dd["rv"].get("ak") == "closure":
+                            fb = crate.bodies.get(dd["rv"]["def"])
+                out.add("R" if fb is not None and K._body_calls_deep(crate, fb, (r"std::thread::JoinHandle::<T>::is_finished",), 3) else "?")
+                if K.meth(k.path) == "map_or":
+                    out |= _flag_values(crate, b, k.args[1], k.bb, depth + 1)
+                else:
+                    out.add("F" if K.meth(k.path) == "is_some_and" else "T")
+            elif k.matches(r"std::option::Option::<T>::is_none"):
+                out.add("N")
+            elif k.matches(r"std::option::Option::<T>::is_some"):
+                out.add("S")
+            else:
+                cb = crate.bodies.get(k.path)
+                deep = k.matches(r"std::thread::JoinHandle::<T>::is_finished") or (cb is not None and K._body_calls_deep(crate, cb, (r"std::thread::JoinHandle::<T>::is_finished",), 3))
+                out.add("R" if deep and not k.matches(r"std::thread::JoinHandle::<T>::is_finished") else "?")
+        else:
+            rv = d["rv"]
+            if rv["k"] == "use":
+                out |= _flag_values(crate, b, rv["op"], d["bb"], depth + 1)
+            elif rv["k"] == "un" and rv.get("op") == "Not":
+                out |= {neg[v] for v in _flag_values(crate, b, rv.get("a"), d["bb"], depth + 1)}
+            else:
+                out.add("?")
+    return out
+
+
 def _running_edges(crate, b):
     """Edges (switch block, target) of `b` taken exactly when `Ticker::is_running()` (a call whose callee asks the thread's
     JoinHandle) answered true for the ticker in the locked slot: the switch tests the call's result itself."""
@@ -405,14 +482,23 @@ def rule_manual_tick_gated(ctx, crate, rule="R-MANUAL-TICK-GATED"):
             sl = up.slice_args(c, [3])
             ok = (sl.has_call(r"std::option::Option::<T>::is_none") or K.deep_has_call(crate, sl, r"std::thread::JoinHandle::<T>::is_finished")) and \
                 sl.has_field("ticker", "progress_bar::ProgressBar")
-            if not ok and len(c.args) > 3 and operand_local(c.args[3]) is not None and not c.args[3]["place"]["p"]:
+            # .. with the right polarity: the flag says "tick here" - true without a running ticker, false with one. Symbolic values of
+            # the flag: R = "the ticker's thread runs", N = "the slot is empty", S = "the slot is occupied", constants, and negations
+            if ok and len(c.args) > 3:
+                vals = _flag_values(crate, up, c.args[3], c.bb)
+                if vals & {"R", "S", "!N", "!R", "N", "!S"}:
+                    ok = not (vals & {"R", "S", "!N", "?"})
+            if not ok and len(c.args) > 3 and operand_local(c.args[3]) is not None and not c.args[3]["place"]["p"] and \
+                    not (_flag_values(crate, up, c.args[3], c.bb) & {"R", "S", "!N"}):
                 # the flag is chosen by a locally built verdict: on the paths through the "thread is running" edge it is `false`
                 run_edges = _running_edges(crate, up)
                 ok = bool(run_edges) and all(
                     c.bb not in R_ or K._bool_vals(up, operand_local(c.args[3]), c.bb, R_, 0) == {False}
                     for R_ in (K.reach_through_edge(up, e, crate) for e in run_edges)) and \
                     any(sl_.has_field("ticker", "progress_bar::ProgressBar") for sb_, e_ in run_edges for sl_ in [up.slice_switch(sb_)])
-            ctx.check(ok, rule, "update-flag", up.name, c.loc(), "update() passes tick = ticker_slot.is_none()", "update() ticks regardless of the steady ticker", cfg)
+            ctx.check(ok, rule, "update-flag", up.name, c.loc(), "update() passes tick = ticker_slot.is_none()",
+                      "update() does not tick exactly when no steady ticker runs: the flag does not depend on the ticker slot, or is inverted (without a ticker "
+                      "update() then no longer ticks: no estimator sample, no rewind detection, no redraw)", cfg)
     bu = K.find_one(ctx, crate, rule, r"state::BarState::update")
     if bu:
         for c in bu.calls(r"state::BarState::tick"):
